@@ -227,6 +227,10 @@ func (it *Interp) callBuiltin(b *ssa.Builtin, args []Value, site ssa.Instruction
 			return normStr(SymStr{p.buf, p.off, n})
 		}
 		panic(unsupported(fmt.Sprintf("unsafe.String on %T", args[0])))
+	case "Sizeof":
+		return uint64(sizeof(ptype(0)))
+	case "Alignof":
+		return uint64(sizes.Alignof(ptype(0)))
 	case "StringData":
 		b, o, n := strToBuf(args[0])
 		if n == 0 {
